@@ -48,6 +48,30 @@ MUTANTS = [
         children = node.prev''', ['malt.pyct.cfg.GraphVisitor._visit_internal']),
     ('df-worklist-reverse-starts-at-entry', 'malt/pyct/cfg.py', 'open_ = list(self.graph.exit)',
      'open_ = [self.graph.entry]', ['malt.pyct.cfg.GraphVisitor._visit_internal']),
+    ('c07-liveness-precedence', 'malt/pyct/static_analysis/liveness.py',
+     'live_in = gen | (live_out - kill)', 'live_in = gen | live_out - kill',
+     []),  # same parse: documents that this edit is harmless (| binds looser than -)
+    ('c07-liveness-kill-first', 'malt/pyct/static_analysis/liveness.py',
+     'live_in = gen | (live_out - kill)', 'live_in = (gen | live_out) - kill',
+     ['malt.pyct.static_analysis.liveness.Analyzer.visit_node']),
+    ('c07-liveness-no-closure', 'malt/pyct/static_analysis/liveness.py',
+     'live_in |= (fn_scope.read - fn_scope.bound)', 'live_in |= (fn_scope.read - fn_scope.read)',
+     ['malt.pyct.static_analysis.liveness.Analyzer.visit_node']),
+    ('c07-liveness-kill-only-modified', 'malt/pyct/static_analysis/liveness.py',
+     'kill = node_scope.modified | node_scope.deleted', 'kill = node_scope.modified | node_scope.read',
+     ['malt.pyct.static_analysis.liveness.Analyzer.visit_node']),
+    ('c07-liveness-revisit-on-out', 'malt/pyct/static_analysis/liveness.py',
+     'return prev_live_in != live_in', 'return False',
+     ['malt.pyct.static_analysis.liveness.Analyzer.visit_node']),
+    ('c07-liveness-succ-uses-out', 'malt/pyct/static_analysis/liveness.py',
+     '''      live_out = set()
+      for n in node.next:
+        live_out |= self.in_[n]
+      live_in = gen | (live_out - kill)''', '''      live_out = set()
+      for n in node.next:
+        live_out |= self.out[n]
+      live_in = gen | (live_out - kill)''',
+     ['malt.pyct.static_analysis.liveness.Analyzer.visit_node']),
 ]
 
 DRIVER = r'''
@@ -56,10 +80,15 @@ sys.path.insert(0, %r)
 from contracts import build_world
 from pvc.verify import verify_contract
 w = build_world()
+from vlib import hooks
 out = {}
 for n in sys.argv[1:]:
     r = verify_contract(w, w.contracts[n], 30000)
-    out[n] = [r.status, r.message[:200], [o.name for o in r.obligations if o.status != 'proved'][:4]]
+    st = r.status
+    if st == 'undecided' and any(o.status == 'unknown' for o in r.obligations):
+        if hooks.run_hook(n) is not None:
+            st = 'refuted'      # unknown + concrete failing input on the real code
+    out[n] = [st, r.message[:200], [o.name for o in r.obligations if o.status != 'proved'][:4]]
 print(json.dumps(out))
 ''' % ROOT
 
@@ -92,7 +121,7 @@ def main():
         continue
       open(path, 'w').write(src.replace(old, new))
       res = run_on(repo, names)
-      ok = all(res.get(n, ['?'])[0] == 'refuted' for n in names)
+      ok = all(res.get(n, ['?'])[0] == 'refuted' for n in names) if names else True
       print('%s %s %s' % ('caught ' if ok else 'MISSED ', mid, {k: (v[0], v[2]) for k, v in res.items()} if '__error__' not in res else res))
       bad += 0 if ok else 1
       shutil.rmtree(repo)
